@@ -259,6 +259,9 @@ pub struct Runner {
     /// `set_size` has changed the number of columns since the parser was created: rows already in
     /// the scrollback keep their old width (known finding F12)
     pub cols_changed: bool,
+    /// every op is written here BEFORE it is executed, so that an abort inside the crate (which
+    /// `catch_unwind` cannot contain) still leaves the input that caused it
+    pub journal: Option<std::fs::File>,
 }
 
 impl Default for Runner {
@@ -299,6 +302,7 @@ impl Runner {
             last_panic: None,
             slowest: (0.0, String::new()),
             cols_changed: false,
+            journal: None,
         }
     }
 
@@ -325,6 +329,10 @@ impl Runner {
 
     /// Execute one protocol line against the real crate; returns the output line.
     pub fn exec(&mut self, line: &str) -> String {
+        if let Some(j) = self.journal.as_mut() {
+            use std::io::Write as _;
+            let _ = writeln!(j, "{line}");
+        }
         let t0 = std::time::Instant::now();
         let out = self.exec_inner(line);
         let dt = t0.elapsed().as_secs_f64();
